@@ -6,6 +6,7 @@ re-subscribe, foreign frame, add callback} with a reference model of frames / su
 field values stepped in lock-step.  Explorer C: wait_for_reception against a receiver thread
 over all schedules up to the preemption bound.
 """
+import itertools
 import struct
 
 from mc import kernel, simenv, vsched
@@ -288,6 +289,9 @@ def cases(tier, seed):
     from checks import c05
     for a in range(len(c05.FULL)):
         out.append({"part": "layouts", "first": a})
+    # the same variable reached through every access path, before and after the PDO is re-mapped (the variable moves)
+    for pa in range(len(PATHS)):
+        out.append({"part": "access-paths", "before": pa})
     return out
 
 
@@ -493,7 +497,66 @@ def run_read_race(case, st):
     st.sample({"read-race": case, "schedules": stats["executions"], "outcomes": len(stats["outcomes"])}, cap=8)
 
 
+# (node.pdo[0x1A00] / node.pdo[0x1600] are not used: their keys are swapped between rx and tx, which the suite enshrines)
+PATHS = ("map[name]", "map[position]", "map[index]", "tpdo[name]", "tpdo[index]", "pdo[name]", "pdo[index]", "tpdo[1][name]")
+
+
+def _via(node, path, name, index, position):
+    m = node.tpdo[1]
+    return {"map[name]": lambda: m[name], "map[position]": lambda: m[position], "map[index]": lambda: m[index],
+            "tpdo[name]": lambda: node.tpdo[name], "tpdo[index]": lambda: node.tpdo[index],
+            "pdo[name]": lambda: node.pdo[name], "pdo[index]": lambda: node.pdo[index],
+            "tpdo[1][name]": lambda: node.tpdo[1][name]}[path]()
+
+
+def run_access_paths(case, st):
+    """Producer (LocalNode TPDO1) and consumer (RemoteNode TPDO1) share a mapping; the value written by the producer
+    through access path A is read by the consumer through every path; then both sides re-map the PDO so that the
+    variable moves to another bit offset and the same is done again, with every path on either side."""
+    import canopen
+    layouts = ([("u32", 0x2002)], [("u8", 0x2000), ("u32", 0x2002)], [("i16", 0x2001), ("u8", 0x2000), ("u32", 0x2002)], [("u32", 0x2002), ("u8", 0x2000)])
+    before = PATHS[case["before"]]
+    for l1, l2 in itertools.permutations(range(len(layouts)), 2):
+        for after in ([case["after"]] if "after" in case else PATHS):
+            w = World()
+            prod, cons = w.dev, w.master
+            for node in (prod, cons):
+                # a name / index looked up on the node finds the first map that holds it: only TPDO1 maps anything here
+                for coll in (node.rpdo, node.tpdo):
+                    for mm in coll.values():
+                        mm.clear()
+            st.evaluations += 1
+            st.nontrivial_n += 1
+            rc = {"part": "access-paths", "before": case["before"], "after": after, "layouts": [l1, l2]}
+            try:
+                for step, (li, path, val) in enumerate(((l1, before, 0x11223344), (l2, after, 0x44556677))):
+                    lay = layouts[li]
+                    for node in (prod, cons):
+                        m = node.tpdo[1]
+                        m.clear()
+                        for nm, ix in lay:
+                            m.add_variable(ix)
+                        m.cob_id, m.enabled = 0x185, True
+                    cons.tpdo[1].subscribe()
+                    pos = [nm for nm, ix in lay].index("u32")
+                    _via(prod, path, "u32", 0x2002, pos).raw = val
+                    prod.tpdo[1].transmit()
+                    for rp in PATHS:
+                        got = _via(cons, rp, "u32", 0x2002, pos).raw
+                        if got != val:
+                            st.violation(f"C15:access-path:{'after-remap' if step else 'first-mapping'}:written-via-{path.split('[')[0]}:read-via-{rp.split('[')[0]}",
+                                         dict(rc, read_path=rp), hex(val), hex(got) if isinstance(got, int) else repr(got))
+                            raise StopIteration
+                st.outcome("access paths ok")
+            except StopIteration:
+                pass
+            except Exception as e:  # noqa: BLE001
+                st.violation(f"C15:access-path:raises:{type(e).__name__}", rc, "value transferred", repr(e)[:120])
+
+
 def run_case(case, st):
+    if case["part"] == "access-paths":
+        return run_access_paths(case, st)
     if case["part"] == "read-race":
         return run_read_race(case, st)
     if case["part"] == "layouts":
